@@ -210,6 +210,18 @@ def conform(ck, plans, invariants=STATE_INVS, par=4, on_reject=None):
                 inv, p['impl'], p['what']),
                 {'impl': p['impl'], 'cfg': facts[i]['cfg'], 'nslots': p['nslots'],
                  'script': facts[i]['script'], 'tlc': txt, 'kind': 'server-trace'})
+        # an application-facing call (send, disconnect, session calls; KeyError is caught and
+        # recorded by the harness where the API documents it) must not raise
+        nexc = 0
+        for f in facts:
+            for rid, r in f.get('reqs', {}).items():
+                if r.get('api') and r.get('exc') and nexc < 2:
+                    nexc += 1
+                    ck.violation('application call %s raised %s (%s, %s)' % (
+                        rid, r['exc'], p['impl'], p['what']),
+                        {'impl': p['impl'], 'cfg': f['cfg'], 'nslots': p['nslots'],
+                         'script': f['script'], 'call': rid, 'exc': r['exc'],
+                         'kind': 'api-exception'})
         if traces and traces[0]:
             ck.sample({'impl': p['impl'], 'what': p['what'],
                        'script': facts[0]['script'][:12],
@@ -253,10 +265,15 @@ def replay_server_trace(pid, path):
     """--replay for violations of kind 'server-trace': re-run the script, re-validate."""
     with open(path) as f:
         rp = json.load(f)
-    if rp.get('kind') != 'server-trace':
+    if rp.get('kind') not in ('server-trace', 'api-exception'):
         print('replay file is not a server trace; content:\n' + json.dumps(rp, indent=1)[:3000])
         return 1
     lines, facts = driver.run_script(rp['impl'], rp['cfg'], rp['script'], rp['nslots'])
+    raised = {rid: r['exc'] for rid, r in facts['reqs'].items() if r.get('api') and r.get('exc')}
+    if raised:
+        print('replay: application calls raised: %r' % raised)
+        print('VIOLATION property=%s replay=%s' % (pid, path))
+        return 1
     v = servercheck.validate([lines], rp['impl'], facts['cfg'], rp['nslots'],
                              invariants=STATE_INVS)
     if v.accepted and not v.inv_violations:
